@@ -32,6 +32,132 @@ def union_word_leaf(word, align_of=None):
     return leaf
 
 
+def tag_rules(F, rep, tag, gen, rule="R-TAG"):
+    """Constructors store `into_raw | tag`, the test reads bit 0, `borrow` strips exactly the tag: evaluated on sample words."""
+    bits = F.pointer_bits
+    # ------------------------------------------------------------- R-TAG: constructors
+    for name, idx in (("from_first", 0), ("from_second", 1)):
+        for b in F.method("ArcUnion", name):
+            B = cfg.Body(b)
+            o = B.origin_local(0)
+            ik = b["key"] + "/tag"
+            if o.get("kind") != "call":
+                rep.bad(rule, ik, "the union is not built by a call taking the tagged word", F.loc(b), tag)
+                continue
+            e = symx.expr(F, B, o["term"]["args"][0])
+            # find the into_raw leaf
+            leaves = []
+            _collect_calls(e, leaves)
+            raws = [l for l in leaves if l[2] == "into_raw"]
+            if len(raws) != 1:
+                rep.bad(rule, ik, "the stored word is not computed from exactly one `Arc::into_raw` of the argument: %s" % symx.show(e), F.loc(b), tag)
+                continue
+            ty_ok = raws[0][4] and raws[0][4][0] == gen[idx]
+            vals = []
+            for P in SAMPLES:
+                vals.append(symx.eval_int(e, lambda x, P=P: P if x[0] == "call" and x[2] == "into_raw" else None, bits))
+            want = [(P | idx) & ((1 << bits) - 1) for P in SAMPLES]
+            if vals != want:
+                rep.bad(rule, ik, "%s must store `ptr%s`; the stored word is %s (e.g. for ptr=%#x it is %s, expected %#x)" % (name, " | 1" if idx else "", symx.show(e), SAMPLES[0], vals[0], want[0]), F.loc(b), tag)
+            elif not ty_ok:
+                rep.bad(rule, ik, "%s consumes an Arc of type parameter %s instead of %s" % (name, raws[0][4], gen[idx]), F.loc(b), tag)
+            else:
+                rep.ok(rule, ik, symx.show(e), cfg=tag)
+                rep.sample({"rule": rule, "function": b["key"], "stored_word": symx.show(e)}) if tag == "default" else None
+    # ------------------------------------------------------------- R-TAG: test
+    first_of = {}
+    for b in F.method("ArcUnion", "is_first"):
+        B = cfg.Body(b)
+        ds = B.defs().get(0, [])
+        e = symx.local_expr(F, B, 0, 0)
+        ok = True
+        wit = None
+        for aa in ALIGNS:
+            for ab in ALIGNS:
+                al = {gen[0]: aa, gen[1]: ab}
+                for P in SAMPLES:
+                    if P % max(aa, ab, 8):
+                        continue
+                    for tagbit in (0, 1):
+                        w = P | tagbit
+                        v = symx.eval_int(e, union_word_leaf(w, al), bits)
+                        if v is None or bool(v) != (tagbit == 0):
+                            ok = False
+                            wit = wit or (aa, ab, w, v)
+        ik = b["key"] + "/test"
+        if ok:
+            rep.ok(rule, ik, symx.show(e), cfg=tag)
+            first_of[b["key"]] = True
+        else:
+            aa, ab, w, v = wit
+            rep.bad(rule, ik, "is_first must answer `word & 1 == 0` for every pair of payload types; it computes %s, which for payload alignments (%s: %d, %s: %d) and the stored word %#x answers %s" % (symx.show(e), gen[0], aa, gen[1], ab, w, "cannot be evaluated" if v is None else bool(v)), F.loc(b), tag)
+    for b in F.method("ArcUnion", "is_second"):
+        B = cfg.Body(b)
+        c = B.condition({"mv": {"l": 0, "p": []}})
+        good = bool(c and "call" in c and c["neg"] and atomics.callee_of(c["call"]) in first_of)
+        if good:
+            rep.ok(rule, b["key"] + "/test", cfg=tag)
+        else:
+            rep.bad(rule, b["key"] + "/test", "is_second is not the negation of is_first", F.loc(b), tag)
+    # ------------------------------------------------------------- R-TAG: borrow (test + strip)
+    for b in F.method("ArcUnion", "borrow"):
+        B = cfg.Body(b)
+        aggs = []
+        for bi, bl in enumerate(b["blocks"]):
+            for s in bl["stmts"]:
+                if s["k"] == "assign" and s["rv"]["k"] == "agg" and s["rv"].get("adt") == F.handle_paths.get("ArcUnionBorrow"):
+                    aggs.append((bi, s))
+        sw = None
+        for bi, bl in enumerate(b["blocks"]):
+            tt = bl["term"]
+            if tt["k"] == "switch":
+                c = B.condition(tt["discr"])
+                if c and "call" in c and atomics.callee_of(c["call"]) in first_of:
+                    sw = (bi, tt, c)
+        if sw is None or len(aggs) != 2:
+            rep.bad(rule, b["key"] + "/strip", "borrow does not branch on is_first into the two variants", F.loc(b), tag)
+            continue
+        bi, tt, c = sw
+        truth = {tgt: (tv != c["neg"]) for tgt, tv in B.switch_truth(tt).items()}
+        good = True
+        why = None
+        for abi, s in aggs:
+            variant = s["rv"]["variant"]
+            # which edge reaches this aggregate
+            edge_first = [is_first for tgt, is_first in truth.items() if abi in B.reach(tgt, normal_only=True)]
+            if len(edge_first) != 1:
+                good, why = False, "variant %s is built on both edges of the test" % variant
+                continue
+            is_first = edge_first[0]
+            if (variant == "First") != is_first:
+                good, why = False, "variant %s is built on the edge where the tag says %s" % (variant, "first" if is_first else "second")
+            e = symx.expr(F, B, s["rv"]["ops"][0])
+            calls = []
+            _collect_calls(e, calls)
+            fp = [x for x in calls if x[2] == "from_ptr"]
+            if len(fp) != 1:
+                good, why = False, "the borrow is not built by ArcBorrow::from_ptr"
+                continue
+            want_ty = gen[0] if variant == "First" else gen[1]
+            if not fp[0][4] or fp[0][4][0] != want_ty:
+                good, why = False, "variant %s borrows as type %s instead of %s" % (variant, fp[0][4], want_ty)
+            pe = fp[0][3][0]
+            for aa in ALIGNS:
+                for ab in ALIGNS:
+                    al = {gen[0]: aa, gen[1]: ab}
+                    for P in SAMPLES:
+                        if P % max(aa, ab, 8):
+                            continue
+                        w = P | (0 if variant == "First" else 1)
+                        v = symx.eval_int(pe, union_word_leaf(w, al), bits)
+                        if v != P and good:
+                            good, why = False, "variant %s: the pointer handed to from_ptr is %s; for payload alignments (%s: %d, %s: %d) and the stored word %#x it yields %s instead of the payload address %#x (the tag bit must be stripped, and only it): the ArcBorrow's bits are then not the value's address" % (variant, symx.show(pe), gen[0], aa, gen[1], ab, w, hex(v) if v is not None else None, P)
+        if good:
+            rep.ok(rule, b["key"] + "/strip", cfg=tag)
+        else:
+            rep.bad(rule, b["key"] + "/strip", why, F.loc(b), tag)
+
+
 def run(ctx, rep):
     for tag, F, E in ctx.each():
         A = balance.analysis(tag, F, E)
@@ -42,123 +168,7 @@ def run(ctx, rep):
             rep.bad("ANCHOR-LOST", "ArcUnion", "ArcUnion type is missing", None, tag)
             continue
         gen = [g["name"] for g in u["generics"] if g["kind"] == "type"]
-        # ------------------------------------------------------------- R-TAG: constructors
-        for name, idx in (("from_first", 0), ("from_second", 1)):
-            for b in F.method("ArcUnion", name):
-                B = cfg.Body(b)
-                o = B.origin_local(0)
-                ik = b["key"] + "/tag"
-                if o.get("kind") != "call":
-                    rep.bad("R-TAG", ik, "the union is not built by a call taking the tagged word", F.loc(b), tag)
-                    continue
-                e = symx.expr(F, B, o["term"]["args"][0])
-                # find the into_raw leaf
-                leaves = []
-                _collect_calls(e, leaves)
-                raws = [l for l in leaves if l[2] == "into_raw"]
-                if len(raws) != 1:
-                    rep.bad("R-TAG", ik, "the stored word is not computed from exactly one `Arc::into_raw` of the argument: %s" % symx.show(e), F.loc(b), tag)
-                    continue
-                ty_ok = raws[0][4] and raws[0][4][0] == gen[idx]
-                vals = []
-                for P in SAMPLES:
-                    vals.append(symx.eval_int(e, lambda x, P=P: P if x[0] == "call" and x[2] == "into_raw" else None, bits))
-                want = [(P | idx) & ((1 << bits) - 1) for P in SAMPLES]
-                if vals != want:
-                    rep.bad("R-TAG", ik, "%s must store `ptr%s`; the stored word is %s (e.g. for ptr=%#x it is %s, expected %#x)" % (name, " | 1" if idx else "", symx.show(e), SAMPLES[0], vals[0], want[0]), F.loc(b), tag)
-                elif not ty_ok:
-                    rep.bad("R-TAG", ik, "%s consumes an Arc of type parameter %s instead of %s" % (name, raws[0][4], gen[idx]), F.loc(b), tag)
-                else:
-                    rep.ok("R-TAG", ik, symx.show(e), cfg=tag)
-                    rep.sample({"rule": "R-TAG", "function": b["key"], "stored_word": symx.show(e)}) if tag == "default" else None
-        # ------------------------------------------------------------- R-TAG: test
-        first_of = {}
-        for b in F.method("ArcUnion", "is_first"):
-            B = cfg.Body(b)
-            ds = B.defs().get(0, [])
-            e = symx.local_expr(F, B, 0, 0)
-            ok = True
-            wit = None
-            for aa in ALIGNS:
-                for ab in ALIGNS:
-                    al = {gen[0]: aa, gen[1]: ab}
-                    for P in SAMPLES:
-                        if P % max(aa, ab, 8):
-                            continue
-                        for tagbit in (0, 1):
-                            w = P | tagbit
-                            v = symx.eval_int(e, union_word_leaf(w, al), bits)
-                            if v is None or bool(v) != (tagbit == 0):
-                                ok = False
-                                wit = wit or (aa, ab, w, v)
-            ik = b["key"] + "/test"
-            if ok:
-                rep.ok("R-TAG", ik, symx.show(e), cfg=tag)
-                first_of[b["key"]] = True
-            else:
-                aa, ab, w, v = wit
-                rep.bad("R-TAG", ik, "is_first must answer `word & 1 == 0` for every pair of payload types; it computes %s, which for payload alignments (%s: %d, %s: %d) and the stored word %#x answers %s" % (symx.show(e), gen[0], aa, gen[1], ab, w, "cannot be evaluated" if v is None else bool(v)), F.loc(b), tag)
-        for b in F.method("ArcUnion", "is_second"):
-            B = cfg.Body(b)
-            c = B.condition({"mv": {"l": 0, "p": []}})
-            good = bool(c and "call" in c and c["neg"] and atomics.callee_of(c["call"]) in first_of)
-            if good:
-                rep.ok("R-TAG", b["key"] + "/test", cfg=tag)
-            else:
-                rep.bad("R-TAG", b["key"] + "/test", "is_second is not the negation of is_first", F.loc(b), tag)
-        # ------------------------------------------------------------- R-TAG: borrow (test + strip)
-        for b in F.method("ArcUnion", "borrow"):
-            B = cfg.Body(b)
-            aggs = []
-            for bi, bl in enumerate(b["blocks"]):
-                for s in bl["stmts"]:
-                    if s["k"] == "assign" and s["rv"]["k"] == "agg" and s["rv"].get("adt") == F.handle_paths.get("ArcUnionBorrow"):
-                        aggs.append((bi, s))
-            sw = None
-            for bi, bl in enumerate(b["blocks"]):
-                tt = bl["term"]
-                if tt["k"] == "switch":
-                    c = B.condition(tt["discr"])
-                    if c and "call" in c and atomics.callee_of(c["call"]) in first_of:
-                        sw = (bi, tt, c)
-            if sw is None or len(aggs) != 2:
-                rep.bad("R-TAG", b["key"] + "/strip", "borrow does not branch on is_first into the two variants", F.loc(b), tag)
-                continue
-            bi, tt, c = sw
-            truth = {tgt: (tv != c["neg"]) for tgt, tv in B.switch_truth(tt).items()}
-            good = True
-            why = None
-            for abi, s in aggs:
-                variant = s["rv"]["variant"]
-                # which edge reaches this aggregate
-                edge_first = [is_first for tgt, is_first in truth.items() if abi in B.reach(tgt, normal_only=True)]
-                if len(edge_first) != 1:
-                    good, why = False, "variant %s is built on both edges of the test" % variant
-                    continue
-                is_first = edge_first[0]
-                if (variant == "First") != is_first:
-                    good, why = False, "variant %s is built on the edge where the tag says %s" % (variant, "first" if is_first else "second")
-                e = symx.expr(F, B, s["rv"]["ops"][0])
-                calls = []
-                _collect_calls(e, calls)
-                fp = [x for x in calls if x[2] == "from_ptr"]
-                if len(fp) != 1:
-                    good, why = False, "the borrow is not built by ArcBorrow::from_ptr"
-                    continue
-                want_ty = gen[0] if variant == "First" else gen[1]
-                if not fp[0][4] or fp[0][4][0] != want_ty:
-                    good, why = False, "variant %s borrows as type %s instead of %s" % (variant, fp[0][4], want_ty)
-                pe = fp[0][3][0]
-                for P in SAMPLES:
-                    w = P | (0 if variant == "First" else 1)
-                    v = symx.eval_int(pe, union_word_leaf(w), bits)
-                    if v != P:
-                        good, why = False, "variant %s: the pointer handed to from_ptr is %s; for the stored word %#x it yields %s instead of the payload address %#x (the tag bit must be stripped, and only it)" % (variant, symx.show(pe), w, hex(v) if v is not None else None, P)
-                        break
-            if good:
-                rep.ok("R-TAG", b["key"] + "/strip", cfg=tag)
-            else:
-                rep.bad("R-TAG", b["key"] + "/strip", why, F.loc(b), tag)
+        tag_rules(F, rep, tag, gen)
         # ------------------------------------------------------------- R-ARMS
         _arms(F, A, rep, tag, gen)
         # ------------------------------------------------------------- R-LOWBIT
